@@ -207,6 +207,31 @@ func mutatePrim(v Val) Val {
 	return w
 }
 
+// typeChanged: a value of ANOTHER Go type whose printed form is the same.
+func typeChanged(v Val) (Val, bool) {
+	switch v.K {
+	case "int":
+		return Val{K: "int64", I: v.I}, true
+	case "int8", "int16", "int32", "int64", "uint8", "uint16", "uint32":
+		return Val{K: "str", S: v.Text()}, true
+	case "uint", "uint64":
+		if v.I >= 0 {
+			return Val{K: "int64", I: v.I}, true
+		}
+		return Val{K: "str", S: v.Text()}, true
+	case "bool", "f64", "f32":
+		return Val{K: "str", S: v.Text()}, true
+	case "str":
+		if v.S == "true" || v.S == "false" {
+			return Val{K: "bool", B: v.S == "true"}, true
+		}
+		return Val{K: "stringer", S: v.S}, true
+	case "stringer":
+		return Val{K: "str", S: v.S}, true
+	}
+	return v, false
+}
+
 type c05Site struct {
 	apply func()
 	desc  string
@@ -326,6 +351,10 @@ func leafSites(v *Val, where string, depth int) []c05Site {
 		}
 	default:
 		out = append(out, c05Site{func() { *v = mutatePrim(*v) }, where + " primitive " + v.K, "leaf/primitive/" + dcls})
+		if tc, ok := typeChanged(*v); ok {
+			// the same printed form under another Go type (5 / "5", uint8(7) / int(7), true / "true")
+			out = append(out, c05Site{func() { *v = tc }, where + " primitive " + v.K + " -> " + tc.K + " with the same text", "leaf/type-change-same-text"})
+		}
 	}
 	return out
 }
@@ -602,7 +631,7 @@ func init() {
 		Gen: genC05,
 		Run: runC05,
 		Floors: map[string]float64{"equal-only": 0.1, "mut:slice/elem/middle": 0.01, "mut:slice/elem/last": 0.01, "mut:map/value/last": 0.003, "mut:map/key-changed": 0.01,
-			"private-field-struct-present": 0.02, "mut:stack/swap": 0.003, "mut:cond/operator": 0.01, "mut:cond/keyword-case": 0.005, "mut:node/cond-to-stack": 0.005, "mut:node/stack-to-cond": 0.005, "mut:stack/kind": 0.01, "mut:ptr/depth3/nested": 0.002, "mut:struct/priv/fieldB": 0.001, "comparable-struct-with-pointer-present": 0.01},
+			"private-field-struct-present": 0.02, "mut:stack/swap": 0.003, "mut:cond/operator": 0.01, "mut:cond/keyword-case": 0.005, "mut:node/cond-to-stack": 0.005, "mut:leaf/type-change-same-text": 0.02, "mut:node/stack-to-cond": 0.005, "mut:stack/kind": 0.01, "mut:ptr/depth3/nested": 0.002, "mut:struct/priv/fieldB": 0.001, "comparable-struct-with-pointer-present": 0.01},
 		Assumptions: []string{"NaN, typed-nil pointers, containers nested in containers, functions and channels are not generated (outside the statement)",
 			"unexported struct fields are never mutated (documented as ignored); slices are built with cap==len (capacity is part of the documented slice comparison)"},
 	})
